@@ -558,7 +558,7 @@ class Engine:
         if any(k is None for k in kwnames):
             return self.models.star_call(self, e, st)
         f = e.func
-        if isinstance(f, ast.Name) and f.id in ('bytes', 'bytearray', 'sum', 'all', 'any', 'tuple', 'list', 'ListContainer', 'min', 'max') \
+        if isinstance(f, ast.Name) and f.id in ('bytes', 'bytearray', 'sum', 'all', 'any', 'min', 'max') \
                 and len(e.args) == 1 and not e.keywords and isinstance(e.args[0], ast.ListComp):
             # f([x for ...]) consumes the list at once: the same as f(x for ...) (same elements, same order, same exceptions)
             e = ast.copy_location(ast.Call(func=f, args=[ast.copy_location(ast.GeneratorExp(elt=e.args[0].elt, generators=e.args[0].generators), e.args[0])], keywords=[]), e)
